@@ -11,12 +11,12 @@ export CARGO_TARGET_DIR=$wt/target CARGO_NET_OFFLINE=true
 cd "$wt" || exit 2
 git checkout -q -- . 2>/dev/null
 demo=tests/seed_${id}_demo$k.rs
-cp "$out/demo.rs" "$demo"
 feat="all_models"; grep -q estimator "$out/demo.rs" "$out/patch.diff" 2>/dev/null && feat="all_models,estimator"
 log="$out/confirm.log"; : > "$log"
 git apply "$out/patch.diff" >> "$log" 2>&1 || { echo "APPLY FAILED" >> "$log"; }
 echo "## baseline suite WITH the change" >> "$log"
 timeout 3000 cargo test --workspace --offline --no-fail-fast 2>&1 | grep -E "^test result|FAILED|failed|error(\[|:)" | grep -v "seed_${id}_demo" >> "$log"
+cp "$out/demo.rs" "$demo"
 timeout 3000 cargo test --offline --features $feat --test seed_${id}_demo$k 2>&1 | grep -E "^test |^test result|error(\[|:)" > "$out/demo_with.txt"
 git apply -R "$out/patch.diff" >> "$log" 2>&1
 timeout 3000 cargo test --offline --features $feat --test seed_${id}_demo$k 2>&1 | grep -E "^test |^test result|error(\[|:)" > "$out/demo_without.txt"
